@@ -28,3 +28,133 @@ pub fn sampler_row(mode: usize, y: &[u8], u: &[u8], v: &[u8], dst: &mut [u8]) {
         f(y.as_ptr(), u.as_ptr(), v.as_ptr(), dst.as_mut_ptr(), len as c_int);
     }
 }
+
+use libwebp_sys::*;
+
+/// Encode with libwebp through the advanced API; `rgba` selects the import function.
+pub fn encode(pixels: &[u8], w: i32, h: i32, rgba: bool, f: impl Fn(&mut WebPConfig)) -> Vec<u8> {
+    unsafe {
+        let mut cfg = WebPConfig::new().unwrap();
+        f(&mut cfg);
+        assert!(WebPValidateConfig(&cfg) != 0, "invalid libwebp config");
+        let mut pic = WebPPicture::new().unwrap();
+        pic.width = w;
+        pic.height = h;
+        if cfg.lossless != 0 {
+            pic.use_argb = 1;
+        }
+        if rgba {
+            assert!(WebPPictureImportRGBA(&mut pic, pixels.as_ptr(), w * 4) != 0);
+        } else {
+            assert!(WebPPictureImportRGB(&mut pic, pixels.as_ptr(), w * 3) != 0);
+        }
+        let mut wr: WebPMemoryWriter = std::mem::zeroed();
+        WebPMemoryWriterInit(&mut wr);
+        pic.writer = Some(WebPMemoryWrite);
+        pic.custom_ptr = &mut wr as *mut _ as *mut _;
+        let ok = WebPEncode(&cfg, &mut pic);
+        assert!(ok != 0, "libwebp encode failed: {:?}", pic.error_code);
+        let v = std::slice::from_raw_parts(wr.mem, wr.size).to_vec();
+        WebPPictureFree(&mut pic);
+        WebPMemoryWriterClear(&mut wr);
+        v
+    }
+}
+
+/// `WebPDecodeRGBA`
+pub fn decode_rgba(file: &[u8]) -> Option<(u32, u32, Vec<u8>)> {
+    unsafe {
+        let (mut w, mut h) = (0, 0);
+        let p = WebPDecodeRGBA(file.as_ptr(), file.len(), &mut w, &mut h);
+        if p.is_null() {
+            return None;
+        }
+        let v = std::slice::from_raw_parts(p, (w * h * 4) as usize).to_vec();
+        WebPFree(p as *mut _);
+        Some((w as u32, h as u32, v))
+    }
+}
+
+/// `WebPDecode` into RGBA without fancy upsampling (point sampling of chroma)
+pub fn decode_rgba_nofancy(file: &[u8]) -> Option<(u32, u32, Vec<u8>)> {
+    unsafe {
+        let mut cfg: WebPDecoderConfig = std::mem::zeroed();
+        if !WebPInitDecoderConfig(&mut cfg) {
+            return None;
+        }
+        cfg.options.no_fancy_upsampling = 1;
+        cfg.output.colorspace = WEBP_CSP_MODE::MODE_RGBA;
+        if WebPDecode(file.as_ptr(), file.len(), &mut cfg) != VP8StatusCode::VP8_STATUS_OK {
+            WebPFreeDecBuffer(&mut cfg.output);
+            return None;
+        }
+        let (w, h) = (cfg.output.width as usize, cfg.output.height as usize);
+        let buf = cfg.output.u.RGBA;
+        let mut v = Vec::with_capacity(w * h * 4);
+        for r in 0..h {
+            v.extend_from_slice(std::slice::from_raw_parts(buf.rgba.offset((r as isize) * buf.stride as isize), w * 4));
+        }
+        WebPFreeDecBuffer(&mut cfg.output);
+        Some((w as u32, h as u32, v))
+    }
+}
+
+/// `WebPDecodeYUV`: (w, h, Y, U, V) with tight strides
+pub fn decode_yuv(file: &[u8]) -> Option<(u32, u32, Vec<u8>, Vec<u8>, Vec<u8>)> {
+    unsafe {
+        let (mut w, mut h, mut stride, mut uvstride) = (0, 0, 0, 0);
+        let mut u: *mut u8 = std::ptr::null_mut();
+        let mut v: *mut u8 = std::ptr::null_mut();
+        let y = WebPDecodeYUV(file.as_ptr(), file.len(), &mut w, &mut h, &mut u, &mut v, &mut stride, &mut uvstride);
+        if y.is_null() {
+            return None;
+        }
+        let cw = (w + 1) / 2;
+        let ch = (h + 1) / 2;
+        let (mut yy, mut uu, mut vv) = (Vec::new(), Vec::new(), Vec::new());
+        for r in 0..h {
+            yy.extend_from_slice(std::slice::from_raw_parts(y.offset((r * stride) as isize), w as usize));
+        }
+        for r in 0..ch {
+            uu.extend_from_slice(std::slice::from_raw_parts(u.offset((r * uvstride) as isize), cw as usize));
+            vv.extend_from_slice(std::slice::from_raw_parts(v.offset((r * uvstride) as isize), cw as usize));
+        }
+        WebPFree(y as *mut _);
+        Some((w as u32, h as u32, yy, uu, vv))
+    }
+}
+
+/// `WebPAnimDecoder`: all frames as RGBA canvases with their end timestamps
+pub fn anim_decode(file: &[u8]) -> Option<Vec<(i32, Vec<u8>)>> {
+    unsafe {
+        let mut opts: WebPAnimDecoderOptions = std::mem::zeroed();
+        if WebPAnimDecoderOptionsInit(&mut opts) == 0 {
+            return None;
+        }
+        opts.color_mode = WEBP_CSP_MODE::MODE_RGBA;
+        opts.use_threads = 0;
+        let data = WebPData { bytes: file.as_ptr(), size: file.len() };
+        let dec = WebPAnimDecoderNew(&data, &opts);
+        if dec.is_null() {
+            return None;
+        }
+        let mut info: WebPAnimInfo = std::mem::zeroed();
+        if WebPAnimDecoderGetInfo(dec, &mut info) == 0 {
+            WebPAnimDecoderDelete(dec);
+            return None;
+        }
+        let n = (info.canvas_width * info.canvas_height * 4) as usize;
+        let mut out = Vec::new();
+        while WebPAnimDecoderHasMoreFrames(dec) != 0 {
+            let mut buf: *mut u8 = std::ptr::null_mut();
+            let mut ts = 0;
+            if WebPAnimDecoderGetNext(dec, &mut buf, &mut ts) == 0 {
+                WebPAnimDecoderDelete(dec);
+                return None;
+            }
+            out.push((ts, std::slice::from_raw_parts(buf, n).to_vec()));
+        }
+        WebPAnimDecoderDelete(dec);
+        Some(out)
+    }
+}
